@@ -19,6 +19,15 @@ def mk_record(r: dict) -> Record:
     )
 
 
+def mk_bare_record(prefix: str, uri_prefix: str, pattern=None) -> Record:
+    """A Record created the way everyday code does it: only the fields that are given are passed (so pydantic's
+    fields-set bookkeeping differs from a record whose synonym lists were passed explicitly)."""
+    kw = {"prefix": prefix, "uri_prefix": uri_prefix}
+    if pattern is not None:
+        kw["pattern"] = pattern
+    return Record(**kw)
+
+
 def mk_records(rs: list[dict]) -> list[Record]:
     return [mk_record(r) for r in rs]
 
@@ -103,13 +112,13 @@ def mk_incremental_queried(spec: dict, order, queries) -> Converter:
     queries(c)
     for i in order:
         r = recs[i]
-        c.add_record(mk_record({"prefix": r["prefix"], "uri_prefix": r["uri_prefix"], "pattern": r.get("pattern")}))
+        c.add_record(mk_bare_record(r["prefix"], r["uri_prefix"], r.get("pattern")))
         queries(c)
         for syn in r["prefix_synonyms"]:
             c.add_prefix(syn, r["uri_prefix"], merge=True)
             queries(c)
         for syn in r["uri_prefix_synonyms"]:
-            c.add_record(mk_record({"prefix": r["prefix"], "uri_prefix": syn}), merge=True)
+            c.add_record(mk_bare_record(r["prefix"], syn), merge=True)
             queries(c)
     return c
 
@@ -162,12 +171,12 @@ def mk_converter_via(spec: dict, mode: str = "at-once") -> Converter:
         return mk_incremental_queried(spec, range(len(spec["records"])), lambda c: None)
     if mode == "chain":
         recs = spec["records"]
-        base = Converter([mk_record({"prefix": r["prefix"], "uri_prefix": r["uri_prefix"], "pattern": r.get("pattern")}) for r in recs])
+        base = Converter([mk_bare_record(r["prefix"], r["uri_prefix"], r.get("pattern")) for r in recs])
         extra = []
         for r in recs:
             for syn in r["prefix_synonyms"]:
-                extra.append(Converter([mk_record({"prefix": syn, "uri_prefix": r["uri_prefix"]})]))
+                extra.append(Converter([mk_bare_record(syn, r["uri_prefix"])]))
             for syn in r["uri_prefix_synonyms"]:
-                extra.append(Converter([mk_record({"prefix": r["prefix"], "uri_prefix": syn})]))
+                extra.append(Converter([mk_bare_record(r["prefix"], syn)]))
         return curies.chain([base, *extra]) if extra or recs else Converter([])
     return mk_converter(spec)
